@@ -75,6 +75,7 @@ func eachInstrDeep(f *ssa.Function, fn func(*ssa.Function, ssa.Instruction)) {
 var baselineFuncsTxt string
 
 var baselineFuncs map[string]bool
+var baselineOnce sync.Once
 
 // isNewHelper: f is a source function of the analysed module (with a body, not a closure) that did not exist when the
 // rules were written.
@@ -82,14 +83,14 @@ func isNewHelper(f *ssa.Function) bool {
 	if f == nil || len(f.Blocks) == 0 || f.Parent() != nil || !inMosdns(f) {
 		return false
 	}
-	if baselineFuncs == nil {
+	baselineOnce.Do(func() {
 		baselineFuncs = map[string]bool{}
 		for _, l := range strings.Split(baselineFuncsTxt, "\n") {
 			if l = strings.TrimSpace(l); l != "" {
 				baselineFuncs[l] = true
 			}
 		}
-	}
+	})
 	return !baselineFuncs[funcName(f)]
 }
 
@@ -109,11 +110,11 @@ type callSites struct {
 	asValue bool
 }
 
-var callSitesCache = map[*ssa.Function]*callSites{}
+var callSitesCache cmap[*ssa.Function, *callSites]
 
 // callSitesOf: the instructions of f's package that call f statically, and whether f is also used as a value.
 func callSitesOf(f *ssa.Function) ([]ssa.Instruction, bool) {
-	if v, ok := callSitesCache[f]; ok {
+	if v, ok := callSitesCache.get(f); ok {
 		return v.sites, v.asValue
 	}
 	res := &callSites{}
@@ -152,7 +153,7 @@ func callSitesOf(f *ssa.Function) ([]ssa.Instruction, bool) {
 			}
 		}
 	}
-	callSitesCache[f] = res
+	callSitesCache.set(f, res)
 	return res.sites, res.asValue
 }
 
